@@ -3,9 +3,10 @@ mod scenarios;
 mod scn_rpc;
 mod scn_batch;
 mod scn_hs;
+mod scn_time;
 
 fn all_scenarios() -> Vec<&'static dyn Scenario> {
-    vec![&scenarios::Basic, &scenarios::Close, &scenarios::Death, &scn_rpc::Rpc, &scn_rpc::ChClose, &scn_rpc::Wire, &scn_batch::Batch, &scn_hs::Hs]
+    vec![&scenarios::Basic, &scenarios::Close, &scenarios::Death, &scn_rpc::Rpc, &scn_rpc::ChClose, &scn_rpc::Wire, &scn_batch::Batch, &scn_hs::Hs, &scn_time::Hb, &scn_time::Throttle]
 }
 
 use serde_json::{json, Value};
@@ -93,7 +94,18 @@ fn supervisor(argv: &[String]) {
     let mut shards_of = Vec::new();
     for vi in 0..variants.len() {
         let b = scn.bound(&tier, &variants[vi]);
-        let shards = if variants.len() >= 24 { if b >= 2 { 8 } else { 1 } } else { (32 / variants.len().max(1)).max(1).min(16) };
+        // work grows steeply with the bound: spread the deepest variants over many workers
+        let max_b = variants.iter().map(|p| scn.bound(&tier, p)).max().unwrap_or(0);
+        let n_max = variants.iter().filter(|p| scn.bound(&tier, p) == max_b).count().max(1);
+        let shards = if b == 0 {
+            1
+        } else if b == max_b {
+            (64 / n_max).max(1).min(16)
+        } else if variants.len() >= 24 {
+            1
+        } else {
+            2
+        };
         shards_of.push(shards);
         for s in 0..shards {
             items.push((vi, s));
